@@ -5,7 +5,7 @@ Agreement of the regenerated model with the hand model: the repetition filter â€
 `is_passing_like_action`, `remove_passing_like_actions`, `has_non_passing_like_action` (with its early-return loop).
 -/
 namespace Arimaa.RsAgree
-open Arimaa Arimaa.Gen Arimaa.Gen.Rs Arimaa.Rt
+open Arimaa Arimaa.Gen Arimaa.Gen.RsBase Arimaa.Rt
 
 theorem is_passing_like_action_eq (s : GameState) (pp : PlayPhase) (hp : s.phase = .play pp) (a : Action) :
     GameState_is_passing_like_action s a =
